@@ -146,8 +146,9 @@ func (r *poolComp) handle(m interface{}) interface{} {
 }
 
 type recorder struct {
-	name string
-	hub  *component.ComponentHub
+	name   string
+	hub    *component.ComponentHub
+	answer func(m interface{}) interface{}
 }
 
 func (r *recorder) GetName() string                          { return r.name }
@@ -162,7 +163,11 @@ func (r *recorder) Tell(m interface{})                       {}
 func (r *recorder) Request(m interface{}, sender *actor.PID) {}
 func (r *recorder) RequestFuture(m interface{}, timeout time.Duration, tip string) *actor.Future {
 	f := actor.NewFuturePrefix("verif", timeout)
-	f.PID().Tell(component.ErrHubUnregistered)
+	if r.answer != nil {
+		f.PID().Tell(r.answer(m))
+	} else {
+		f.PID().Tell(component.ErrHubUnregistered)
+	}
 	return f
 }
 
@@ -249,7 +254,7 @@ type node struct {
 	reoffer []reoffered
 }
 
-func (w *world) newNode() *node {
+func (w *world) newNode(hf *config.HardforkConfig) *node {
 	w.nnode++
 	n := &node{w: w, dir: filepath.Join(w.root, fmt.Sprintf("n%d", w.nnode))}
 	w.initDir(n.dir)
@@ -260,6 +265,8 @@ func (w *world) newNode() *node {
 	cfg.Blockchain.VerifierCount = 2
 	cfg.Mempool.EnableFadeout = false
 	cfg.Mempool.DumpFilePath = filepath.Join(n.dir, "mempool.dump")
+	hfCopy := *hf
+	cfg.Hardfork = &hfCopy
 	n.cs = chain.NewChainService(cfg)
 	n.cs.SetChainConsensus(&stubCons{cs: n.cs})
 	hub := component.NewComponentHub()
@@ -269,6 +276,14 @@ func (w *world) newNode() *node {
 	for _, nm := range []string{message.RPCSvc, message.P2PSvc, message.SyncerSvc} {
 		hub.Register(&recorder{name: nm})
 	}
+	// the pool asks the chain service whether a contract accepts a delegated fee (the chain worker would ask the VM:
+	// the stub VM allows it unless scripted otherwise, and no such script is generated)
+	hub.Register(&recorder{name: message.ChainSvc, answer: func(m interface{}) interface{} {
+		if _, ok := m.(*message.CheckFeeDelegation); ok {
+			return message.CheckFeeDelegationRsp{Err: nil}
+		}
+		return component.ErrHubUnregistered
+	}})
 	n.cs.SetHub(hub)
 	n.mp.SetHub(hub)
 	best, err := n.cs.GetBestBlock()
@@ -328,6 +343,7 @@ type producer struct {
 	core *chain.Core
 	gen  *types.Block
 	ts   int64
+	hf   *config.HardforkConfig // the session's hard-fork heights (the node under test is configured with the same)
 }
 
 func (w *world) newProducer() *producer {
@@ -338,7 +354,7 @@ func (w *world) newProducer() *producer {
 		panic(err)
 	}
 	g := core.GetGenesisInfo()
-	return &producer{w: w, core: core, gen: g.Block(), ts: g.Timestamp}
+	return &producer{w: w, core: core, gen: g.Block(), ts: g.Timestamp, hf: config.AllEnabledHardforkConfig}
 }
 
 func (p *producer) sdbAt(root []byte) *statedb.StateDB { return p.core.VerifC04SDB().OpenNewStateDB(root) }
@@ -347,11 +363,11 @@ func (p *producer) sdbAt(root []byte) *statedb.StateDB { return p.core.VerifC04S
 // stays in the body; the header carries the state the others reach), as a Byzantine producer could send it.
 func (p *producer) build(parent *types.Block, txs []*types.Tx) (*types.Block, []error) {
 	p.ts += 1000
-	bi := types.NewBlockHeaderInfoFromPrevBlock(parent, p.ts, config.AllEnabledHardforkConfig)
+	bi := types.NewBlockHeaderInfoFromPrevBlock(parent, p.ts, p.hf)
 	sdb := p.core.VerifC04SDB()
 	bs := state.NewBlockState(sdb.OpenNewStateDB(parent.GetHeader().GetBlocksRootHash()), state.SetPrevBlockHash(parent.BlockHash()))
 	bs.SetGasPrice(system.GetGasPrice())
-	bs.Receipts().SetHardFork(config.AllEnabledHardforkConfig, bi.No)
+	bs.Receipts().SetHardFork(p.hf, bi.No)
 	exec := chain.NewTxExecutor(context.Background(), stubCcc{}, nil, bi, contract.ChainService)
 	var errs []error
 	for _, tx := range txs {
@@ -435,11 +451,21 @@ type session struct {
 	blks    []*mblk
 	byHash  map[string]*mblk
 	ops     []string
-	cid     []byte // chain-id hash every block of this chain has (all hard forks enabled from block 1)
+	hf      *config.HardforkConfig
+	forkAt  uint64 // height from which blocks carry chain-id version 5 (below: version 4); 0 = version 5 from block 1 on
 	names   []string
 	pooled  map[string]int // carried hash -> tid of the transaction admitted under it
 	nameSeq int
 }
+
+// cidAt: the chain-id hash a transaction must carry to execute in a block of height h: the hash of the chain id with
+// the hard-fork version of that height (computed with the hasher directly, not through BlockHeaderInfo).
+func (s *session) cidAt(h uint64) []byte {
+	return common.Hasher(types.MakeChainId(s.p.gen.GetHeader().GetChainID(), s.hf.Version(h)))
+}
+
+// cidNext: for the block after the node's best block.
+func (s *session) cidNext() []byte { return s.cidAt(s.bestBlk().height + 1) }
 
 func (s *session) op(line, out string, nontrivial bool) {
 	s.ops = append(s.ops, line+" => "+out)
@@ -605,7 +631,7 @@ func (s *session) genTx(tip *mblk) *mtx {
 	next := s.nonceAt(tip, w.addrs[from]) + 1
 	base := func() *types.TxBody {
 		return &types.TxBody{Nonce: next, Account: w.addrs[from], Recipient: w.addrs[to], Amount: s.amount(),
-			Type: types.TxType_TRANSFER, ChainIdHash: s.cid}
+			Type: types.TxType_TRANSFER, ChainIdHash: s.cidAt(tip.height + 1)}
 	}
 	self := hashSpec{mode: "self"}
 	own := sigSpec{mode: "k", key: from}
@@ -664,12 +690,18 @@ func (s *session) genTx(tip *mblk) *mtx {
 		return s.mk(txSpec{body: b, sig: own, hash: self, kind: "foreign-chain-id"})
 	case k < 65:
 		b := base()
-		v := []int32{0, 2, 3, 9}[rng.Intn(4)]
+		v := []int32{0, 2, 3, 4, 5, 9}[rng.Intn(6)]
+		kind := "other-fork-version-chain-id"
+		if s.forkAt > 0 && rng.Chance(2, 3) {
+			// this chain's id in its version on the other side of the hard-fork height
+			v = 9 - s.hf.Version(tip.height+1)
+			kind = "chain-id-of-the-other-side-of-the-hard-fork"
+		}
 		b.ChainIdHash = common.Hasher(types.MakeChainId(tip.blk.GetHeader().GetChainID(), v))
-		if bytes.Equal(b.ChainIdHash, s.cid) {
+		if bytes.Equal(b.ChainIdHash, s.cidAt(tip.height+1)) {
 			b.ChainIdHash = common.Hasher(types.MakeChainId(tip.blk.GetHeader().GetChainID(), 1))
 		}
-		return s.mk(txSpec{body: b, sig: own, hash: self, kind: "other-fork-version-chain-id"})
+		return s.mk(txSpec{body: b, sig: own, hash: self, kind: kind})
 	case k < 70:
 		b := base()
 		switch rng.Intn(3) {
@@ -787,7 +819,7 @@ func (s *session) genTx(tip *mblk) *mtx {
 }
 
 func (s *session) opValidate(m *mtx) {
-	cid := s.cid
+	cid := s.cidNext()
 	switch s.rng.Intn(5) {
 	case 0:
 		cid = otherCid("other.chain", 0)
@@ -882,7 +914,7 @@ func (s *session) oracleAdmitted(tx *types.Tx, best *mblk, how string) {
 	root := s.n.mp.VerifC04StateRoot()
 	sdb := s.n.cs.SDB().OpenNewStateDB(root)
 	_, accept := s.n.mp.VerifC04ChainIdHashes()
-	if !bytes.Equal(tx.Body.ChainIdHash, accept) || !bytes.Equal(accept, s.cid) {
+	if !bytes.Equal(tx.Body.ChainIdHash, accept) || !bytes.Equal(accept, s.cidAt(s.n.mp.VerifC04BestNo()+1)) {
 		s.fail("pool " + how + " a transaction bound to another chain id hash")
 	}
 	if !bytes.Equal(tx.Hash, tx.CalculateTxHash()) {
@@ -917,8 +949,8 @@ func (s *session) execOn(m *mtx, verified []byte) (string, bool) {
 	sdb := s.n.cs.SDB()
 	bs := state.NewBlockState(sdb.OpenNewStateDB(best.GetHeader().GetBlocksRootHash()), state.SetPrevBlockHash(best.BlockHash()))
 	bs.SetGasPrice(system.GetGasPrice())
-	bi := types.NewBlockHeaderInfoFromPrevBlock(best, s.p.ts+1, config.AllEnabledHardforkConfig)
-	bs.Receipts().SetHardFork(config.AllEnabledHardforkConfig, bi.No)
+	bi := types.NewBlockHeaderInfoFromPrevBlock(best, s.p.ts+1, s.hf)
+	bs.Receipts().SetHardFork(s.hf, bi.No)
 	before := map[int]uint64{}
 	for i, a := range s.w.addrs {
 		st, _ := state.GetAccountState(a, bs.StateDB)
@@ -1321,7 +1353,7 @@ func (s *session) genAfterFailing() {
 	next := s.nonceAt(tip, s.w.addrs[from]) + 1
 	mkT := func(nonce uint64, signer int, kind string) *mtx {
 		return s.mk(txSpec{body: &types.TxBody{Nonce: nonce, Account: s.w.addrs[from], Recipient: s.w.addrs[to], Amount: s.amount(),
-			Type: types.TxType_TRANSFER, ChainIdHash: s.cid}, sig: sigSpec{mode: "k", key: signer}, hash: hashSpec{mode: "self"}, kind: kind})
+			Type: types.TxType_TRANSFER, ChainIdHash: s.cidAt(tip.height + 1)}, sig: sigSpec{mode: "k", key: signer}, hash: hashSpec{mode: "self"}, kind: kind})
 	}
 	good := mkT(next, from, "valid-transfer")
 	bad := mkT(next+1+uint64(s.rng.Intn(3)), from, "nonce-gap")
@@ -1361,11 +1393,11 @@ func (s *session) genNameMove() {
 	nm := []byte(fmt.Sprintf("verifmove%03d", s.nameSeq%1000))
 	gov := func(acct int, nonce uint64, payload, cmd, kind string) *mtx {
 		return s.mk(txSpec{body: &types.TxBody{Nonce: nonce, Account: w.addrs[acct], Recipient: []byte(types.AergoName), Amount: aergo1.Bytes(),
-			Payload: []byte(payload), Type: types.TxType_GOVERNANCE, ChainIdHash: s.cid}, sig: sigSpec{mode: "k", key: acct}, hash: hashSpec{mode: "self"}, cmd: cmd, kind: kind})
+			Payload: []byte(payload), Type: types.TxType_GOVERNANCE, ChainIdHash: s.cidNext()}, sig: sigSpec{mode: "k", key: acct}, hash: hashSpec{mode: "self"}, cmd: cmd, kind: kind})
 	}
 	xfer := func(acct []byte, signer int, nonce uint64, to int, amt *big.Int, kind string) *mtx {
 		return s.mk(txSpec{body: &types.TxBody{Nonce: nonce, Account: acct, Recipient: w.addrs[to], Amount: amt.Bytes(),
-			Type: types.TxType_TRANSFER, ChainIdHash: s.cid}, sig: sigSpec{mode: "k", key: signer}, hash: hashSpec{mode: "self"}, kind: kind})
+			Type: types.TxType_TRANSFER, ChainIdHash: s.cidNext()}, sig: sigSpec{mode: "k", key: signer}, hash: hashSpec{mode: "self"}, kind: kind})
 	}
 	na := s.nonceAt(tip, w.addrs[A])
 	nb := s.nonceAt(tip, w.addrs[B])
@@ -1417,7 +1449,7 @@ func (s *session) validTx(tip *mblk, extra map[string]uint64) *mtx {
 	to := (from + 1 + s.rng.Intn(nAcct-1)) % nAcct
 	a := s.w.addrs[from]
 	b := &types.TxBody{Nonce: s.nonceAt(tip, a) + 1 + extra[string(a)], Account: a, Recipient: s.w.addrs[to], Amount: s.amount(),
-		Type: types.TxType_TRANSFER, ChainIdHash: s.cid}
+		Type: types.TxType_TRANSFER, ChainIdHash: s.cidAt(tip.height + 1)}
 	kind := "valid-transfer"
 	if s.rng.Chance(1, 6) {
 		b.Type = types.TxType_CALL
@@ -1533,7 +1565,7 @@ func (s *session) genContractName() {
 	s.nameSeq++
 	nm := []byte(fmt.Sprintf("verifctrt%03d", s.nameSeq%1000))
 	tx := func(acct []byte, signer int, nonce uint64, rcpt []byte, amt *big.Int, typ types.TxType, payload, cmd, kind string) *mtx {
-		b := &types.TxBody{Nonce: nonce, Account: acct, Recipient: rcpt, Type: typ, ChainIdHash: s.cid}
+		b := &types.TxBody{Nonce: nonce, Account: acct, Recipient: rcpt, Type: typ, ChainIdHash: s.cidNext()}
 		if amt != nil && amt.Sign() > 0 {
 			b.Amount = amt.Bytes()
 		}
@@ -1575,23 +1607,91 @@ func (s *session) genContractName() {
 	}
 }
 
+// genFeeDelegation: fee-delegated calls of a stub contract — one that fails inside the VM (receipt ERROR: the SENDER's
+// nonce is consumed all the same), its replay in a later block and in the same block, and successful ones.
+func (s *session) genFeeDelegation() {
+	w := s.w
+	rng := s.rng
+	tip := s.bestBlk()
+	D := rng.Intn(nAcct)
+	S := (D + 1 + rng.Intn(nAcct-1)) % nAcct
+	tx := func(signer int, nonce uint64, rcpt []byte, amt int64, typ types.TxType, payload, cmd, kind string) *mtx {
+		b := &types.TxBody{Nonce: nonce, Account: w.addrs[signer], Recipient: rcpt, Type: typ, ChainIdHash: s.cidNext()}
+		if amt > 0 {
+			b.Amount = big.NewInt(amt).Bytes()
+		}
+		if payload != "" {
+			b.Payload = []byte(payload)
+		}
+		return s.mk(txSpec{body: b, sig: sigSpec{mode: "k", key: signer}, hash: hashSpec{mode: "self"}, cmd: cmd, kind: kind})
+	}
+	nd := s.nonceAt(tip, w.addrs[D])
+	cAddr := contract.CreateContractID(w.addrs[D], nd+1)
+	dep := tx(D, nd+1, nil, int64(rng.Intn(1000)), types.TxType_DEPLOY, "{}", "d:"+hx(cAddr), "deploy-stub-contract")
+	b1 := s.opBlock(tip, []*mtx{dep}, false, "deploy")
+	if s.bestBlk() != b1 {
+		return
+	}
+	ns := s.nonceAt(b1, w.addrs[S])
+	failing := tx(S, ns+1, cAddr, int64(rng.Intn(500)), types.TxType_FEEDELEGATION, `{"err":"vm"}`, "s:vm", "fee-delegated-call-vm-error")
+	use := rng.Chance(1, 2)
+	if use && rng.Chance(1, 2) {
+		s.opAdmit(failing)
+	}
+	s.opExec(failing)
+	txs := []*mtx{failing}
+	if rng.Chance(1, 3) {
+		txs = []*mtx{failing, failing} // the replay in the very same block
+	}
+	b2 := s.opBlock(b1, txs, use, "fee-delegated-vm-error")
+	if s.bestBlk() != b2 {
+		if len(txs) == 2 {
+			b2 = s.opBlock(b1, txs[:1], use, "fee-delegated-vm-error")
+		}
+		if s.bestBlk() != b2 {
+			return
+		}
+	}
+	// the identical transaction again, alone and behind the sender's real next transaction
+	s.opBlock(b2, []*mtx{failing}, use, "fee-delegated-replay")
+	var next *mtx
+	switch rng.Intn(3) {
+	case 0:
+		next = tx(S, ns+2, cAddr, int64(rng.Intn(500)), types.TxType_FEEDELEGATION, "{}", "s:ok", "fee-delegated-call-ok")
+	case 1:
+		next = tx(S, ns+2, cAddr, int64(rng.Intn(500)), types.TxType_CALL, `{"err":"vm"}`, "s:vm", "call-vm-error")
+	default:
+		next = tx(S, ns+2, w.addrs[D], int64(1+rng.Intn(500)), types.TxType_TRANSFER, "", "", "valid-transfer")
+	}
+	s.opBlock(s.bestBlk(), []*mtx{next, failing}, use, "fee-delegated-replay-behind-next")
+	s.opBlock(s.bestBlk(), []*mtx{next}, use, "after-fee-delegated")
+}
+
 func (s *session) runSession(nops int) {
-	s.n = s.w.newNode()
+	// hard-fork heights of this session: version 5 from block 1 on, or version 4 up to a small height and 5 from there
+	s.forkAt = 0
+	if s.rng.Chance(3, 5) {
+		s.forkAt = uint64(2 + s.rng.Intn(5))
+	}
+	s.hf = &config.HardforkConfig{V2: 0, V3: 0, V4: 0, V5: types.BlockNo(s.forkAt)}
+	s.p.hf = s.hf
+	s.n = s.w.newNode(s.hf)
 	defer s.n.close()
 	gen := &mblk{bid: 0, blk: s.p.gen}
 	s.blks = []*mblk{gen}
 	s.byHash = map[string]*mblk{string(s.p.gen.BlockHash()): gen}
 	s.txs, s.ops, s.names = nil, nil, nil
 	s.pooled = map[string]int{}
-	bi := types.NewBlockHeaderInfoFromPrevBlock(s.p.gen, s.p.ts+1, config.AllEnabledHardforkConfig)
-	s.cid = bi.ChainIdHash()
 	_, accept := s.n.mp.VerifC04ChainIdHashes()
+	if !bytes.Equal(accept, s.cidAt(1)) {
+		s.fail("the pool of a fresh node does not accept the chain id hash of block 1")
+	}
 	var addrs []string
 	for _, a := range s.w.addrs[:nAcct] {
 		addrs = append(addrs, hx(a))
 	}
 	// types.MaxAER: on a net that is not the main net NewChainService sets it to the genesis total
-	s.op(fmt.Sprintf("new %s %s 0 %s %s %s", hx(s.cid), hx(accept), types.MaxAER.String(), genesisBalance.String(), strings.Join(addrs, " ")), "ok", false)
+	s.op(fmt.Sprintf("new %s %s %d 0 %s %s %s", hx(s.cidAt(1)), hx(s.cidAt(1<<40)), s.forkAt, types.MaxAER.String(), genesisBalance.String(), strings.Join(addrs, " ")), "ok", false)
 	s.opState()
 	for i := 0; i < nops; i++ {
 		k := s.rng.Intn(100)
@@ -1604,6 +1704,8 @@ func (s *session) runSession(nops int) {
 			s.genNameMove()
 		case k < 43:
 			s.genContractName()
+		case k < 46:
+			s.genFeeDelegation()
 		case k < 51:
 			s.genFork()
 		case k < 56:
